@@ -262,7 +262,7 @@ namespace
         auto grp = left.data<d_group>();
         auto arr = right.data<d_array>();
         
-        if (arr->check_type(runtime, std::array<sqf::runtime::type, 5> { t_string(), t_array(), t_array(), t_scalar(), t_string() }))
+        if (!arr->check_type(runtime, std::array<sqf::runtime::type, 5> { t_string(), t_array(), t_array(), t_scalar(), t_string() }))
         {
             return {};
         }
